@@ -4,6 +4,7 @@ package server
 
 import (
 	"os"
+	"strconv"
 	"strings"
 	"sync"
 	"sync/atomic"
@@ -122,12 +123,18 @@ func TestVfRacePair(t *testing.T) {
 		}
 		return vfNHGOp(1, DefaultNetworkInstanceName, 7, 99, id) // held (unresolved)
 	}
+	iters := 400
+	if v := os.Getenv("VF_PAIR_ITERS"); v != "" {
+		if n, err := strconv.Atoi(v); err == nil && n > 0 {
+			iters = n
+		}
+	}
 	for _, primary := range []string{"A", "B"} {
 		s := vfC11Setup(primary)
 		var wg sync.WaitGroup
 		run := func(role int, sess string) {
 			defer wg.Done()
-			for k := 0; k < 400; k++ {
+			for k := 0; k < iters; k++ {
 				in := &vfC11In{ack: k % 2, eHi: 1, eLo: 1, op: ops(k), flushElec: 1 + k%2, fHi: 1, fLo: 1}
 				vfC11Role(s, role, sess, in)
 				if role == 4 { // re-create what disconnect removed so that the loop keeps exercising it
